@@ -88,13 +88,18 @@ Lemma int_wraps_uint64 :
     convert (v_type sv) (GI KUint64 18446744073709551615) = Ok (GI KInt64 (-1)).
 Proof. with_var. split; [reflexivity|]. vm_compute in E. inversion E; subst. vm_compute. reflexivity. Qed.
 
-(* a decimal loses its sign / is rounded on the unsigned path *)
+(* a decimal loses its sign on the unsigned path *)
 Lemma uint_decimal_sign_dropped :
   exists sv, lookup vars "group_concat_max_len" = Some sv /\
-    convert (v_type sv) (GD (-5) 1) = Ok (GI KUint64 5) /\ convert (v_type sv) (GD 9 2) = Ok (GI KUint64 5).
-Proof.
-  with_var. split; [reflexivity|]. vm_compute in E. inversion E; subst. split; vm_compute; reflexivity.
-Qed.
+    convert (v_type sv) (GD (-5) 1) = Ok (GI KUint64 5).
+Proof. with_var. split; [reflexivity|]. vm_compute in E. inversion E; subst. vm_compute. reflexivity. Qed.
+
+(* a fractional decimal is rounded half up on the unsigned path (a conversion to the variable's type), while the
+   signed type rejects every fraction *)
+Lemma uint_decimal_rounded :
+  exists sv, lookup vars "group_concat_max_len" = Some sv /\
+    convert (v_type sv) (GD 9 2) = Ok (GI KUint64 5).
+Proof. with_var. split; [reflexivity|]. vm_compute in E. inversion E; subst. vm_compute. reflexivity. Qed.
 
 (* SET GLOBAL of a GLOBAL-only variable is not what the bare @@x of an existing session (even the one that issued
    it) returns *)
